@@ -129,7 +129,39 @@ def monitor : List (List (Option Int)) → Bool → Option Bool
     let closed' := closed || pollClosed codes
     if pollAnyNone codes then monitor rest closed' else some closed'
 
-/-- dispatch hook kept for the driver (no extra commands here) -/
-def extraStep (_cmd : String) (_args : List String) : Option String := none
+/-! ### executable scheduler actions (used to validate real traces against `PStep`) -/
+
+inductive PAction where
+  | put              -- the filler puts its next element (item, or pill once the items are out)
+  | take (w : Nat)   -- worker `w` takes the head of the queue
+  deriving Repr, DecidableEq
+
+/-- apply an action if it is enabled -/
+def applyAction {I : Type} (cap : Nat) (s : PState I) : PAction → Option (PState I)
+  | .put =>
+    if s.queue.length < cap then
+      match s.todo with
+      | x :: rest => some { s with todo := rest, queue := s.queue ++ [some x] }
+      | [] => match s.pills with
+        | p + 1 => some { s with pills := p, queue := s.queue ++ [none] }
+        | 0 => none
+    else none
+  | .take w =>
+    match s.queue, s.workers[w]? with
+    | some x :: q, some ws =>
+      if ws.done then none else some { s with queue := q, workers := s.workers.set w { done := false, got := ws.got ++ [x] } }
+    | none :: q, some ws =>
+      if ws.done then none else some { s with queue := q, workers := s.workers.set w { done := true, got := ws.got } }
+    | _, _ => none
+
+/-- run a whole trace of actions -/
+def runActions {I : Type} (cap : Nat) : PState I → List PAction → Option (PState I)
+  | s, [] => some s
+  | s, a :: rest => match applyAction cap s a with
+    | some t => runActions cap t rest
+    | none => none
+
+def PState.finalb {I : Type} (s : PState I) : Bool :=
+  s.todo.isEmpty && s.pills == 0 && s.queue.isEmpty && s.workers.all (·.done)
 
 end Sketchnu
